@@ -4,5 +4,7 @@ CONSTANT OutFile
 ASSUME PrintT(<<"ATVAL", Cardinality(Descs), Cardinality({d \in Descs : ~Agree(d)})>>)
 ASSUME LET sq == SetToSeq(Descs) IN
        ndJsonSerialize(OutFile, [j \in 1..Len(sq) |-> [d |-> sq[j], documented |-> Documented(sq[j]), code |-> Code(sq[j])]]
-                                \o [j \in 1..Len(EnumAttrs) |-> [enumattr |-> EnumAttrs[j], forms |-> EnumForms]])
+                                \o [j \in 1..Len(EnumAttrs) |-> [enumattr |-> EnumAttrs[j], forms |-> EnumForms]]
+                                \o [j \in 1..Len(FormTable) |-> [formrow |-> FormTable[j], branch |-> Branch(FormTable[j].form)]])
+ASSUME PrintT(<<"FORMS", Transparent, DirectIsDirect>>)
 =============================================================================
